@@ -154,18 +154,20 @@ type caseT struct {
 	L     int    `json:"limit"`
 	Pool  string `json:"pool"` // mempool | aligned
 	// ReadLimit: 0 = fitted to the wire image (never triggers)
-	ReadLimit int         `json:"read_limit,omitempty"`
-	Client    bool        `json:"client,omitempty"`
-	Type      int         `json:"type,omitempty"`
-	Size      int         `json:"size,omitempty"`  // plain/readlimit: message size; compressed: inflated size; control: payload size
-	Frags     int         `json:"frags,omitempty"` // number of frames the message is cut into
-	FragSeed  int64       `json:"frag_seed,omitempty"`
-	Content   string      `json:"content,omitempty"` // zero | compressible | utf8 | random
-	Level     int         `json:"level,omitempty"`
-	Final     bool        `json:"bfinal_ending,omitempty"` // DEFLATE stream ends with a BFINAL=1 block (RFC 7692 7.2.3.4)
-	Op        int         `json:"op,omitempty"`            // control opcode
-	Via       string      `json:"via,omitempty"`           // control-send: "" = WriteMessage | frame = WriteFrame | close = WriteClose
-	Seg       nbdrive.Seg `json:"seg"`
+	ReadLimit int    `json:"read_limit,omitempty"`
+	Client    bool   `json:"client,omitempty"`
+	Type      int    `json:"type,omitempty"`
+	Size      int    `json:"size,omitempty"`  // plain/readlimit: message size; compressed: inflated size; control: payload size
+	Frags     int    `json:"frags,omitempty"` // number of frames the message is cut into
+	FragSeed  int64  `json:"frag_seed,omitempty"`
+	Content   string `json:"content,omitempty"` // zero | compressible | utf8 | random
+	Level     int    `json:"level,omitempty"`
+	Final     bool   `json:"bfinal_ending,omitempty"` // DEFLATE stream ends with a BFINAL=1 block (RFC 7692 7.2.3.4)
+	Op        int    `json:"op,omitempty"`            // control opcode
+	Via       string `json:"via,omitempty"`           // control-send: "" = WriteMessage | frame = WriteFrame | close = WriteClose
+	// FramesOnly (plain, one frame): the endpoint has a data-frame callback and no message callback
+	FramesOnly bool        `json:"frames_only,omitempty"`
+	Seg        nbdrive.Seg `json:"seg"`
 	// informational
 	WireHex string `json:"wire_hex,omitempty"`
 	WireLen int    `json:"wire_len,omitempty"`
@@ -237,7 +239,12 @@ func drive(c caseT, wire []byte) outcome {
 		rl = len(wire) + 1
 	}
 	cfg := nbdrive.Config{Client: c.Client, Compression: c.Kind == "compressed" || c.Kind == "compressed-unfinished", MsgLimit: c.L, ReadLimit: rl, Allocator: tr}
-	cfg.AfterMessage = tr.handOver
+	if c.FramesOnly {
+		// a data-frame callback only, no message callback: nothing is assembled by nbio
+		cfg.FramesOnly = true
+	} else {
+		cfg.AfterMessage = tr.handOver
+	}
 	e := nbdrive.New(cfg)
 	cuts := c.Seg.Cuts(len(wire))
 	prev := 0
@@ -436,6 +443,9 @@ func runPlain(c caseT) {
 	how := "single-frame"
 	if c.Frags > 1 {
 		how = "fragmented"
+	}
+	if c.FramesOnly {
+		how = "frames-only"
 	}
 	ok := true
 	if c.Size > c.L {
@@ -700,12 +710,13 @@ func runPingInterleaved(c caseT) {
 	frames := []wsref.Frame{fr[0], {Fin: true, Opcode: wsref.OpPing, Masked: masked, Key: [4]byte{5, 6, 7, 8}, Payload: []byte("ping-payload")}, fr[1]}
 	frames = append(frames, wsref.Frame{Fin: true, Opcode: wsref.OpBinary, Masked: masked, Key: [4]byte{1, 2, 3, 4}, Payload: []byte(sentinel)})
 	o := drive(c, wsref.Encode(frames))
-	if o.e.Failed() {
-		run.Count("observation:within_limit_message_refused_because_interleaved_ping_counted", 1)
-	} else if len(o.msgs) == 2 {
-		run.Count("observation:within_limit_message_with_interleaved_ping_delivered", 1)
+	// a control frame is not part of the message: the message is exactly at the limit and must be
+	// delivered (the statement bounds messages, and C13 has the same sequence as a valid one)
+	ok := o.expectDelivered(c, "ping-interleaved", m)
+	ok = o.common(c, "ping-interleaved") && ok
+	if ok {
+		run.Nontrivial(fmt.Sprintf("ping-interleaved/%d", c.Index))
 	}
-	o.common(c, "ping-interleaved")
 }
 
 func runCase(c caseT) {
@@ -798,6 +809,11 @@ func main() {
 						c := caseT{Kind: "plain", L: L, Pool: pl, Client: rng.Intn(2) == 0, Type: 1 + rng.Intn(2), Size: size, Frags: frags, FragSeed: rng.Int63()}
 						c.Seg = segFor(rng, size)
 						step(c, false)
+						if frags == 1 {
+							// the same frame for an endpoint with a data-frame callback only
+							c.FramesOnly = true
+							step(c, false)
+						}
 					}
 				}
 				// ---- compressed: inflating to L-1, L, L+1, L+24, 10L, 1000L, and random sizes just above L
